@@ -137,6 +137,14 @@ def analyse(mod, run, label, table=TABLE):
             if any(P.prove_at((off + z).scale(den) - ext.scale(num), i.block, trim=trim) for z in szs):
                 run.ok("L2-read-within-length", {"fn": name, "at": loc(i), "access": kind, "offset": repr(off), "size": repr(szs[0]), "bound": "%s*%d/%d" % (lenn, num, den)})
             else:
+                # the callee's closed-form extent (e.g. "at most 9 bytes") is too coarse when the callee clamps to the remaining input
+                # itself: prove its own reads under the facts of this call site
+                g = mod.functions.get(i.get("callee") or "") if i.op == "call" else None
+                if g is not None and not g.decl and den == 1 and "(via " not in kind:
+                    try: why = B.prove_in_callee(fn, i, ("arg", inp), off, ext.scale(num), "r", [])
+                    except RecursionError: why = "recursion"
+                    if why is None:
+                        run.ok("L2-read-within-length", {"fn": name, "at": loc(i), "access": kind, "via": "context proof"}); continue
                 run.fail(Finding("L2-read-beyond-length", name, inn, kind, "%s at %s through '%s': cannot prove %r <= 0, i.e. that the read ends at or before '%s'" % (kind, loc(i), inn, goal, lenn), loc=loc(i)))
         if n == 0: raise AnalysisBroken("%s: no read through the input parameter found" % name)
         summ[name] = n
